@@ -1,4 +1,5 @@
 INIT SInit
 NEXT SNext
-POSTCONDITION Accepted
+CONSTRAINT TrackL
+POSTCONDITION AcceptedS
 CHECK_DEADLOCK FALSE
